@@ -112,6 +112,11 @@ def structural_violations(s):
         bad = [j for j in s.nbrs(l) if s.cls(j) != "ConnectionPoint"]
         if bad:
             out.append(("rule10-links-join-interfaces", f"link {l} is joined to {[(j, s.cls(j)) for j in bad]}"))
+        # "links join ... interfaces": a link with fewer than two ends joins nothing (the building calls take at
+        # least two interfaces, removals take a link along when fewer than two ends would remain - C08)
+        ends = [j for j in s.nbrs(l) if s.cls(j) == "ConnectionPoint"]
+        if len(ends) < 2:
+            out.append(("links-join-interfaces/fewer-than-two-ends", f"link {l} {s.name(l)!r} has ends {ends}"))
     for cp in s.ids("ConnectionPoint"):
         if s.typ(cp) == "ServicePort":
             npeers = sum(1 for l in s.links_of_cp(cp) for e in s.ends_of_link(l) if e != cp)
